@@ -22,11 +22,14 @@ import (
 // contention can never be mistaken for quiescence.
 type spin struct{ v int32 }
 
+//go:norace
 func (l *spin) Lock() {
 	for !atomic.CompareAndSwapInt32(&l.v, 0, 1) {
 		runtime.Gosched()
 	}
 }
+
+//go:norace
 func (l *spin) Unlock() { atomic.StoreInt32(&l.v, 0) }
 
 type task struct {
@@ -90,13 +93,17 @@ type Result struct {
 
 // Sim is one simulated run.
 type Sim struct {
-	T  *Tape
-	mu spin
+	joinWord int64 // see taskDone
+	T        *Tape
+	mu       spin
 
-	tasks    map[uint64]*task
+	// Memory shared between tasks and the scheduler lives in slices that never grow (fixed
+	// capacity) and is only touched by //go:norace functions: in the race-detector build the
+	// kernel must neither report its own accesses nor order the tasks' accesses.
+	tasks    []*task
 	parked   []*task
 	pending  []string
-	live     map[string]bool // unfinished harness tasks
+	live     []string // unfinished harness tasks
 	baseline map[uint64]bool
 	schedID  uint64
 	schedTid int
@@ -113,7 +120,7 @@ type Sim struct {
 	starved   string
 
 	trace  []string
-	objs   map[any]int
+	objs   []any
 	events []Event
 	log    []string
 	buf    []byte
@@ -127,6 +134,8 @@ type Sim struct {
 	StuckTimeout time.Duration
 	// NoThreadFilter disables the /proc pre-filter (self-test).
 	NoThreadFilter bool
+	// WallBudget stops a run that does not end (second part of the step budget).
+	WallBudget time.Duration
 }
 
 var active atomic.Value // *Sim
@@ -161,8 +170,11 @@ func goid() uint64 {
 // New creates the simulator for one run and installs it. Policy parameters are drawn
 // from the plan stream of the tape.
 func New(t *Tape, estSteps int) *Sim {
-	s := &Sim{T: t, tasks: map[uint64]*task{}, live: map[string]bool{}, buf: make([]byte, 1<<20),
-		StuckTimeout: 20 * time.Second}
+	s := &Sim{T: t, buf: make([]byte, 1<<20), StuckTimeout: 20 * time.Second,
+		tasks: make([]*task, 0, 4096), parked: make([]*task, 0, 4096), pending: make([]string, 0, 16), live: make([]string, 0, 4096),
+		objs: make([]any, 0, 1<<14), events: make([]Event, 0, 1<<17), log: make([]string, 0, 1<<15), trace: make([]string, 0, 1<<16)}
+	s.res.Hazards = make([]string, 0, 64)
+	t.reserve()
 	s.policy = t.Plan(numPolicies)
 	s.stickyPct = 50 + 10*t.Plan(5)
 	s.pctSalt = uint64(t.Plan(1 << 30))
@@ -183,60 +195,138 @@ func New(t *Tape, estSteps int) *Sim {
 // Close uninstalls the simulator.
 func (s *Sim) Close() { active.Store((*Sim)(nil)) }
 
+// findTask, addTask, delTask: the task table (caller holds s.mu).
+//
+//go:norace
+func (s *Sim) findTask(id uint64) *task {
+	for _, t := range s.tasks {
+		if t.id == id {
+			return t
+		}
+	}
+	return nil
+}
+
+//go:norace
+func (s *Sim) addTask(t *task) {
+	if len(s.tasks) < cap(s.tasks) {
+		s.tasks = append(s.tasks, t)
+	}
+}
+
+//go:norace
+func (s *Sim) delTask(id uint64) {
+	for i, t := range s.tasks {
+		if t.id == id {
+			s.tasks[i] = s.tasks[len(s.tasks)-1]
+			s.tasks = s.tasks[:len(s.tasks)-1]
+			return
+		}
+	}
+}
+
+//go:norace
+func (s *Sim) hazard(msg string) {
+	if len(s.res.Hazards) < cap(s.res.Hazards) {
+		s.res.Hazards = append(s.res.Hazards, msg)
+	}
+}
+
+//go:norace
 func (s *Sim) me() *task {
 	id := goid()
 	s.mu.Lock()
-	t := s.tasks[id]
+	t := s.findTask(id)
 	s.mu.Unlock()
 	return t
 }
 
+//go:norace
 func (s *Sim) park(t *task, site string) {
 	ch := make(chan struct{})
 	s.mu.Lock()
 	t.site = site
 	t.ch = ch
-	s.parked = append(s.parked, t)
+	if len(s.parked) < cap(s.parked) {
+		s.parked = append(s.parked, t)
+	}
 	s.mu.Unlock()
 	<-ch
 }
 
 // Go starts a harness task. It may be called before Run or from a running task.
+//
+//go:norace
 func (s *Sim) Go(name string, f func()) {
+	raceOff()
 	s.mu.Lock()
-	if s.live[name] {
-		s.res.Hazards = append(s.res.Hazards, "duplicate task name "+name)
+	for _, n := range s.live {
+		if n == name {
+			s.hazard("duplicate task name " + name)
+		}
 	}
-	s.live[name] = true
+	if len(s.live) < cap(s.live) {
+		s.live = append(s.live, name)
+	}
 	s.mu.Unlock()
 	started := make(chan struct{})
-	go func() {
-		t := &task{name: name, id: goid(), harness: true}
-		s.mu.Lock()
-		s.tasks[t.id] = t
-		s.mu.Unlock()
-		close(started)
-		s.park(t, "task.start")
-		defer func() {
-			s.mu.Lock()
-			delete(s.live, name)
-			delete(s.tasks, t.id)
-			s.mu.Unlock()
-		}()
-		f()
-	}()
+	raceOn() // the go statement itself is a real happens-before edge (creator -> task)
+	go s.taskMain(name, started, f)
+	raceOff()
 	<-started
+	raceOn()
+}
+
+//go:norace
+func (s *Sim) taskMain(name string, started chan struct{}, f func()) {
+	raceOff()
+	t := &task{name: name, id: goid(), harness: true}
+	s.mu.Lock()
+	s.addTask(t)
+	s.mu.Unlock()
+	close(started)
+	s.park(t, "task.start")
+	raceOn()
+	defer s.taskDone(name, t.id)
+	f()
+}
+
+//go:norace
+func (s *Sim) taskDone(name string, id uint64) {
+	// visible to the race detector: everything a harness task did happens before the code
+	// that runs after Run returned (which reads the results the task left behind)
+	atomic.AddInt64(&s.joinWord, 1)
+	raceOff()
+	s.mu.Lock()
+	for i, n := range s.live {
+		if n == name {
+			s.live[i] = s.live[len(s.live)-1]
+			s.live = s.live[:len(s.live)-1]
+			break
+		}
+	}
+	s.delTask(id)
+	s.mu.Unlock()
+	raceOn()
 }
 
 // Yield is a harness yield point.
+//
+//go:norace
 func (s *Sim) Yield(site string) {
+	raceOff()
+	defer raceOn()
 	if t := s.me(); t != nil {
 		s.park(t, site)
 	}
 }
 
 // Name returns the task name of the calling goroutine ("" outside the simulation).
+//
+//go:norace
 func (s *Sim) Name() string {
+	raceOff()
+	defer raceOn()
 	if t := s.me(); t != nil {
 		return t.name
 	}
@@ -244,26 +334,30 @@ func (s *Sim) Name() string {
 }
 
 // Step returns the number of scheduling steps made so far.
+//
+//go:norace
 func (s *Sim) Step() int { return s.res.Steps }
 
 // Log appends a line to the harness log (part of the trace hash). It must be called by
 // the task the scheduler released, or outside Run.
+//
+//go:norace
 func (s *Sim) Log(line string) {
+	raceOff()
+	defer raceOn()
 	if debugSteps {
-		line = fmt.Sprintf("[step %d] %s", s.res.Steps, line)
-	}
-	if s.running {
-		id := goid()
-		s.mu.Lock()
-		if s.current == nil || s.current.id != id {
-			s.res.Hazards = append(s.res.Hazards, "log from a goroutine that was not released: "+line)
-		}
-		s.log = append(s.log, line)
-		s.mu.Unlock()
-		return
+		line = "[step " + strconv.Itoa(s.res.Steps) + "] " + line
 	}
 	s.mu.Lock()
-	s.log = append(s.log, line)
+	if s.running {
+		id := goid()
+		if s.current == nil || s.current.id != id {
+			s.hazard("log from a goroutine that was not released: " + line)
+		}
+	}
+	if len(s.log) < cap(s.log) {
+		s.log = append(s.log, line)
+	}
 	s.mu.Unlock()
 }
 
@@ -278,7 +372,10 @@ func (s *Sim) Trace() []string { return s.trace }
 
 // ---- hooks -------------------------------------------------------------------
 
+//go:norace
 func hookY(site string) {
+	raceOff()
+	defer raceOn()
 	s := cur()
 	if s == nil {
 		return
@@ -288,7 +385,10 @@ func hookY(site string) {
 	}
 }
 
+//go:norace
 func hookSpawn(site string) {
+	raceOff()
+	defer raceOn()
 	s := cur()
 	if s == nil {
 		return
@@ -301,20 +401,25 @@ func hookSpawn(site string) {
 	s.mu.Lock()
 	t.spawnN++
 	if len(s.pending) != 0 {
-		s.res.Hazards = append(s.res.Hazards, "two pending spawns")
+		s.hazard("two pending spawns")
 	}
-	s.pending = append(s.pending, fmt.Sprintf("%s/%s#%d", t.name, site, t.spawnN))
+	if len(s.pending) < cap(s.pending) {
+		s.pending = append(s.pending, t.name+"/"+site+"#"+strconv.Itoa(t.spawnN))
+	}
 	s.mu.Unlock()
 }
 
+//go:norace
 func hookEnter(site string) {
+	raceOff()
+	defer raceOn()
 	s := cur()
 	if s == nil {
 		return
 	}
 	id := goid()
 	s.mu.Lock()
-	t := s.tasks[id]
+	t := s.findTask(id)
 	if t != nil {
 		t.depth++
 		s.mu.Unlock()
@@ -327,84 +432,104 @@ func hookEnter(site string) {
 	}
 	t = &task{name: s.pending[0], id: id}
 	s.pending = s.pending[:0]
-	s.tasks[id] = t
+	s.addTask(t)
 	s.mu.Unlock()
 	s.park(t, site+".enter")
 }
 
+//go:norace
 func hookExit() {
+	raceOff()
+	defer raceOn()
 	s := cur()
 	if s == nil {
 		return
 	}
 	id := goid()
 	s.mu.Lock()
-	if t := s.tasks[id]; t != nil {
+	if t := s.findTask(id); t != nil {
 		if t.depth > 0 {
 			t.depth--
 		} else {
-			delete(s.tasks, id)
+			s.delTask(id)
 		}
 	}
 	s.mu.Unlock()
 }
 
+//go:norace
 func hookEv(site, detail string) {
+	raceOff()
+	defer raceOn()
 	s := cur()
 	if s == nil {
 		return
 	}
 	id := goid()
 	s.mu.Lock()
-	t := s.tasks[id]
+	t := s.findTask(id)
 	if t != nil {
 		if s.current == nil || s.current.id != id {
-			s.res.Hazards = append(s.res.Hazards, "event from a goroutine that was not released: "+site)
+			s.hazard("event from a goroutine that was not released: " + site)
 		}
-		s.events = append(s.events, Event{Step: s.res.Steps, Task: t.name, Site: site, Detail: detail})
+		if len(s.events) < cap(s.events) {
+			s.events = append(s.events, Event{Step: s.res.Steps, Task: t.name, Site: site, Detail: detail})
+		}
 	}
 	s.mu.Unlock()
 }
 
+//go:norace
 func hookEvP(site string, p any, detail string) {
+	raceOff()
+	defer raceOn()
 	s := cur()
 	if s == nil {
 		return
 	}
 	id := goid()
 	s.mu.Lock()
-	t := s.tasks[id]
+	t := s.findTask(id)
 	if t != nil {
 		if s.current == nil || s.current.id != id {
-			s.res.Hazards = append(s.res.Hazards, "event from a goroutine that was not released: "+site)
+			s.hazard("event from a goroutine that was not released: " + site)
 		}
-		if s.objs == nil {
-			s.objs = map[any]int{}
+		o := 0
+		for i, q := range s.objs {
+			if q == p {
+				o = i + 1
+				break
+			}
 		}
-		o, ok := s.objs[p]
-		if !ok {
-			o = len(s.objs) + 1
-			s.objs[p] = o
+		if o == 0 && len(s.objs) < cap(s.objs) {
+			s.objs = append(s.objs, p)
+			o = len(s.objs)
 		}
-		s.events = append(s.events, Event{Step: s.res.Steps, Task: t.name, Site: site, Detail: detail, Obj: o})
+		if len(s.events) < cap(s.events) {
+			s.events = append(s.events, Event{Step: s.res.Steps, Task: t.name, Site: site, Detail: detail, Obj: o})
+		}
 	}
 	s.mu.Unlock()
 }
 
+//go:norace
 func (s *Sim) drawCheck(what string) bool {
 	id := goid()
 	s.mu.Lock()
 	defer s.mu.Unlock()
-	if _, ok := s.tasks[id]; !ok {
+	if s.findTask(id) == nil {
 		return false
 	}
 	if s.current == nil || s.current.id != id {
-		s.res.Hazards = append(s.res.Hazards, what+" from a goroutine that was not released")
+		s.hazard(what + " from a goroutine that was not released")
 	}
 	return true
 }
 
+//go:norace
 func hookPoll(n int) []int {
+	raceOff()
+	defer raceOn()
 	s := cur()
 	if s == nil || n < 2 || !s.drawCheck("poll") {
 		return nil
@@ -425,10 +550,12 @@ func hookPoll(n int) []int {
 	return p
 }
 
+//go:norace
 func hookOrder(n int, less func(i, j int) bool, swap func(i, j int)) {
 	if n < 2 {
 		return
 	}
+	// (less and swap touch the caller's data: they run with the detector fully on)
 	// the canonical order is established always (also at construction time, outside a
 	// run); the seeded permutation only inside a simulated run
 	if less != nil {
@@ -438,6 +565,8 @@ func hookOrder(n int, less func(i, j int) bool, swap func(i, j int)) {
 			}
 		}
 	}
+	raceOff()
+	defer raceOn()
 	s := cur()
 	if s == nil || !s.drawCheck("order") {
 		return
@@ -613,6 +742,7 @@ func (s *Sim) waitQuiescent() (ok bool, why string) {
 
 // ---- scheduling ----------------------------------------------------------------
 
+//go:norace
 func (s *Sim) prio(t *task) int64 {
 	if t.prio == 0 {
 		h := mix(s.pctSalt ^ hashStr(t.name))
@@ -631,51 +761,64 @@ func hashStr(x string) uint64 {
 }
 
 // pick chooses among the sorted candidates (last-run task first, then by name).
+//
+//go:norace
 func (s *Sim) pick(c []*task) int {
 	n := len(c)
 	step := s.res.Steps
-	return s.T.Sched(n, func(raw uint64) int {
-		switch s.policy {
-		case PolSticky:
-			if c[0].name == s.lastName && int(raw>>40)%100 < s.stickyPct {
-				return 0
-			}
-			return int(raw % uint64(n))
-		case PolPCT:
-			best := 0
-			for i := 1; i < n; i++ {
-				if s.prio(c[i]) > s.prio(c[best]) {
-					best = i
-				}
-			}
-			if s.pctChange[step] {
-				s.pctLow--
-				c[best].prio = s.pctLow
-			}
-			return best
-		case PolStarve:
-			k := int(raw % uint64(n))
-			if step == s.starveAt {
-				s.starved = c[k].name
-			}
-			if s.starved != "" && c[k].name == s.starved {
-				for off := 1; off < n; off++ {
-					if j := (k + off) % n; c[j].name != s.starved {
-						return j
-					}
-				}
-			}
-			return k
+	return s.T.Sched(n, func(raw uint64) int { return s.policyPick(c, step, raw) })
+}
+
+//go:norace
+func (s *Sim) policyPick(c []*task, step int, raw uint64) int {
+	n := len(c)
+	switch s.policy {
+	case PolSticky:
+		if c[0].name == s.lastName && int(raw>>40)%100 < s.stickyPct {
+			return 0
 		}
 		return int(raw % uint64(n))
-	})
+	case PolPCT:
+		best := 0
+		for i := 1; i < n; i++ {
+			if s.prio(c[i]) > s.prio(c[best]) {
+				best = i
+			}
+		}
+		if s.pctChange[step] {
+			s.pctLow--
+			c[best].prio = s.pctLow
+		}
+		return best
+	case PolStarve:
+		k := int(raw % uint64(n))
+		if step == s.starveAt {
+			s.starved = c[k].name
+		}
+		if s.starved != "" && c[k].name == s.starved {
+			for off := 1; off < n; off++ {
+				if j := (k + off) % n; c[j].name != s.starved {
+					return j
+				}
+			}
+		}
+		return k
+	}
+	return int(raw % uint64(n))
 }
 
 // Run drives the simulation until no task is parked and the process is quiescent, or
 // the step budget is exceeded. It must be called on the goroutine that created the Sim.
+//
+//go:norace
 func (s *Sim) Run(maxSteps int) *Result {
 	runtime.LockOSThread()
 	defer runtime.UnlockOSThread()
+	raceOff() // the scheduler goroutine only ever does kernel work
+	defer func() {
+		raceOn()
+		atomic.LoadInt64(&s.joinWord)
+	}()
 	s.schedID = goid()
 	s.schedTid = gettid()
 	// baseline: goroutines that existed before the run and are not tasks of this run.
@@ -683,7 +826,7 @@ func (s *Sim) Run(maxSteps int) *Result {
 	s.mu.Lock()
 	s.baseline = map[uint64]bool{}
 	for _, g := range infos {
-		if _, mine := s.tasks[g.ID]; !mine {
+		if s.findTask(g.ID) == nil {
 			s.baseline[g.ID] = true
 		}
 	}
@@ -691,6 +834,10 @@ func (s *Sim) Run(maxSteps int) *Result {
 	s.mu.Unlock()
 	h := sha256.New()
 	sig := sha256.New()
+	runStart := time.Now()
+	if s.WallBudget == 0 {
+		s.WallBudget = 40 * time.Second
+	}
 	for {
 		ok, why := s.waitQuiescent()
 		if !ok {
@@ -703,24 +850,28 @@ func (s *Sim) Run(maxSteps int) *Result {
 		if n == 0 {
 			if len(s.live) > 0 {
 				s.res.Deadlock = true
-				for k := range s.live {
-					s.res.Unfinished = append(s.res.Unfinished, k)
-				}
+				s.res.Unfinished = append([]string(nil), s.live...)
 				sort.Strings(s.res.Unfinished)
 			}
 			s.mu.Unlock()
 			break
 		}
-		if s.res.Steps >= maxSteps {
+		if s.res.Steps >= maxSteps || (s.res.Steps&255 == 0 && time.Since(runStart) > s.WallBudget) {
+			// (the wall-clock part only matters for runs that pile up goroutines and steps
+			// without end; ordinary runs take milliseconds)
 			s.res.Budget = true
 			s.mu.Unlock()
 			break
 		}
 		c := s.parked
-		sort.Slice(c, func(i, j int) bool { return c[i].name < c[j].name })
+		for i := 1; i < n; i++ { // insertion sort by name (few candidates)
+			for j := i; j > 0 && c[j].name < c[j-1].name; j-- {
+				c[j], c[j-1] = c[j-1], c[j]
+			}
+		}
 		for i := 1; i < n; i++ {
 			if c[i].name == c[i-1].name {
-				s.res.Hazards = append(s.res.Hazards, "duplicate parked name "+c[i].name)
+				s.hazard("duplicate parked name " + c[i].name)
 			}
 		}
 		for i := 0; i < n; i++ {
@@ -740,13 +891,14 @@ func (s *Sim) Run(maxSteps int) *Result {
 			k = s.pick(c)
 		}
 		t := c[k]
-		s.parked = append(c[:k], c[k+1:]...)
+		copy(c[k:], c[k+1:])
+		s.parked = c[:n-1]
 		s.current = t
 		s.lastName = t.name
 		s.res.Steps++
 		line := t.name + "@" + t.site
 		if s.KeepTrace && os.Getenv("VSIM_DEBUG_CANDS") != "" {
-			line += fmt.Sprintf(" [%d:", n)
+			line += " [" + strconv.Itoa(n) + ":"
 			for _, x := range c {
 				line += x.name + "@" + x.site + ","
 			}
@@ -755,9 +907,9 @@ func (s *Sim) Run(maxSteps int) *Result {
 		h.Write([]byte(line))
 		h.Write([]byte{'\n'})
 		if n > 1 {
-			fmt.Fprintf(sig, "%d/%d;", k, n)
+			sig.Write([]byte(strconv.Itoa(k) + "/" + strconv.Itoa(n) + ";"))
 		}
-		if s.KeepTrace {
+		if s.KeepTrace && len(s.trace) < cap(s.trace) {
 			s.trace = append(s.trace, line)
 		}
 		ch := t.ch
@@ -777,7 +929,7 @@ func (s *Sim) Run(maxSteps int) *Result {
 		s.res.Blocked = append(s.res.Blocked, g)
 	}
 	for _, e := range s.events {
-		fmt.Fprintf(h, "E%d|%s|%s|%s|%d\n", e.Step, e.Task, e.Site, e.Detail, e.Obj)
+		h.Write([]byte("E" + strconv.Itoa(e.Step) + "|" + e.Task + "|" + e.Site + "|" + e.Detail + "|" + strconv.Itoa(e.Obj) + "\n"))
 	}
 	for _, l := range s.log {
 		h.Write([]byte(l))
@@ -789,6 +941,8 @@ func (s *Sim) Run(maxSteps int) *Result {
 }
 
 // ParkedSites lists "name@site" of tasks still parked (after a budget stop).
+//
+//go:norace
 func (s *Sim) ParkedSites() []string {
 	var out []string
 	for _, t := range s.parked {
